@@ -180,13 +180,13 @@ func emitSetup(e *vh.Env, c cfgT, cls string) {
 func setupOddities(e *vh.Env) []cfgT {
 	var out []cfgT
 	def := func(opts ...optT) cfgT { return mkVia(&setupT{sEpoch: defEpoch, sNb: 10, sLow: false, opts: opts}) }
-	out = append(out, def())                                             // Setup() with no option
-	out = append(out, def(optT{kind: 'E', t: tmT{0, 0}}))                // epoch 1970
-	out = append(out, def(optT{kind: 'E', t: tmT{-1, 999999999}}))       // 1 ns before 1970: floor, -1 ms
-	out = append(out, def(optT{kind: 'E', t: tmT{-1, 999000000}}))       // exactly -1 ms
-	out = append(out, def(optT{kind: 'E', t: tmT{-2208988800, 500000}})) // 1900
-	out = append(out, def(optT{kind: 'E', t: tmOfMs(y2000-1, 999999)}))  // last ms before the year 2000
-	out = append(out, def(optT{kind: 'E', t: tmT{time.Date(2021, 1, 1, 0, 0, 0, 0, shanghai).Unix(), 0}}))
+	out = append(out, def())                                                 // Setup() with no option
+	out = append(out, def(optT{kind: 'E', t: tmT{0, 0, ""}}))                // epoch 1970
+	out = append(out, def(optT{kind: 'E', t: tmT{-1, 999999999, ""}}))       // 1 ns before 1970: floor, -1 ms
+	out = append(out, def(optT{kind: 'E', t: tmT{-1, 999000000, ""}}))       // exactly -1 ms
+	out = append(out, def(optT{kind: 'E', t: tmT{-2208988800, 500000, ""}})) // 1900
+	out = append(out, def(optT{kind: 'E', t: tmOfMs(y2000-1, 999999)}))      // last ms before the year 2000
+	out = append(out, def(optT{kind: 'E', t: tmT{time.Date(2021, 1, 1, 0, 0, 0, 0, shanghai).Unix(), 0, ""}}))
 	for m := 0; m < 256; m += 1 + e.Rnd.Intn(e.Scale(24, 3)) {
 		out = append(out, def(optT{kind: 'M', m: uint8(m)}))
 	}
